@@ -207,7 +207,7 @@ PROPERTIES = {
         modules=['table'], level='exploration', bounded=['c14_table.py'],
         claim='NOTHING about the table itself is proved: its behaviour is SQL executed by SQLite through SQLAlchemy, outside any contract\'s reach. The level is exploration: '
               'bounded stand-in c14_table.py = run-time checked contracts (abstract view: the whole table as a dict) on every public operation of the real SQLiteURLTable, also '
-              'through URLTableHookWrapper, against a reference model, for all operation sequences of length <= 3 over 13 operations and seeded random sequences up to 40 '
+              'through URLTableHookWrapper, against a reference model, for all operation sequences of length <= 3 over 14 operations and seeded random sequences up to 40 '
               'operations on disk with reopen; the whole view is compared after every operation. The one part within reach IS under contract and proved: '
               'URLTableHookWrapper forwards count/get_one/get_all/add_many/check_out/check_in/release/remove_many/close/add_visits/get_revisit_id/get_hostnames/'
               'get_root_url_todo_count/convert_check_out/convert_check_in as exactly one call of the same operation with the same arguments, returning its result.',
